@@ -40,9 +40,14 @@ def gen(rng, i, tier):
         pat = [rng.choice([0, 1]) for _ in range(lay["k"])]
         if lay["phases"] and all(pat):
             pat[0] = 0
+        if (i // 4) % 3 == 0:
+            # fixed share: the first input is a starved regulator ("on" at exactly 0 V), a later input is live
+            lay["starve_first"] = True
+            pat[0], pat[1] = 1, 1
         spec = c05.realise(lay, pat)
         return {"spec": spec, "orders": ["as_generated"], "oseed": rng.randrange(1 << 30), "tol": 1e-6, "ta": 25.0,
-                "history": rng.choice(["fresh", "solve_then_phase_conf", "analysed_while_built"]), "hseed": rng.randrange(1 << 30)}
+                "history": ["fresh", "solve_then_rename_sources", "solve_then_phase_conf", "analysed_while_built", "solve_then_rename"][(i // 4) % 5],
+                "hseed": rng.randrange(1 << 30)}
     multi = rng.random() < 0.8
     spec = G.gen_system(
         rng, n_comp=(4, 26 if big else 14), n_src=(2, 4) if multi else (1, 1), mux=0.6 if multi else 0.2,
